@@ -275,6 +275,47 @@ func windowScenario(policy vs.Policy, f int) *explore.Scenario {
 	}}
 }
 
+// A stream of one key: the window is fixed, it runs from the arrival that was accepted; arrivals that are dropped do
+// not prolong it (reference: a repeat sooner than one window after the last accepted arrival is dropped, one later
+// than a window and a half - window plus one clean-up period - is accepted, in between either, and the reference follows
+// what the implementation decided).
+func streamScenario() *explore.Scenario {
+	return &explore.Scenario{Name: "window/stream", C: 0, DataOnly: true, Opts: vs.Options{Time: vs.Quiescent, TimeHorizon: int64(10 * time.Second)}, Body: func() {
+		d := newDedup()
+		calls := 0
+		h := d.Middleware(func(m *message.Message) ([]*message.Message, error) { calls++; return nil, nil })
+		time.Sleep([]time.Duration{0, 30 * time.Millisecond}[vs.Choose(2, 0, "first arrival offset")])
+		n := 3 + vs.Choose(2, 0, "arrivals")
+		gaps := []time.Duration{window * 3 / 5, window * 6 / 5, window * 8 / 5}
+		lastAccepted := time.Duration(-1)
+		hist := ""
+		for i := 0; i < n; i++ {
+			if i > 0 {
+				time.Sleep(gaps[vs.Choose(len(gaps), 0, "gap")])
+			}
+			t := vs.VirtualNow()
+			before := calls
+			h(message.NewMessage(fmt.Sprintf("u%d", i), []byte("same")))
+			accepted := calls == before+1
+			hist += fmt.Sprintf("+%v:%v ", t, accepted)
+			switch {
+			case lastAccepted < 0:
+				if !accepted {
+					vs.Fail("first-accepted", "the first arrival of a key was dropped (%s)", hist)
+				}
+			case t-lastAccepted < window && accepted:
+				vs.Fail("remembered-for-window", "arrivals of one key (time:accepted) %s: accepted %v after the last accepted one, window %v", hist, t-lastAccepted, window)
+			case t-lastAccepted > window*3/2 && !accepted:
+				vs.Fail("accepted-after-expiry", "arrivals of one key (time:accepted) %s: still dropped %v after the last accepted one (window %v, clean-up every %v): dropped repeats must not prolong the window", hist, t-lastAccepted, window, window/2)
+			}
+			if accepted {
+				lastAccepted = t
+			}
+		}
+		vs.Note("%s", hist)
+	}}
+}
+
 // ---- (c) hashers -------------------------------------------------------------------------------------------
 
 func hasherScenario() *explore.Scenario {
@@ -372,6 +413,7 @@ func init() {
 	add(reg.Quick, 2, func(t reg.Tier) *explore.Scenario { return sharedScenario() })
 	add(reg.Thorough, 20, func(t reg.Tier) *explore.Scenario { return batchScenario(4) })
 	add(reg.Quick, 5, func(t reg.Tier) *explore.Scenario { return windowScenario(vs.Quiescent, 0) })
+	add(reg.Quick, 5, func(t reg.Tier) *explore.Scenario { return streamScenario() })
 	add(reg.Quick, 20, func(t reg.Tier) *explore.Scenario {
 		if t == reg.Thorough {
 			return windowScenario(vs.Nondet, 2)
